@@ -292,6 +292,9 @@ def cases():
     for j, mm in enumerate([x for x in families.curated_meshes() if x.name in ('3d-2lev-mixed', '2d-2lev')]):
         out.append({'label': '%s/lev-prefix' % mm.name, 'mesh': mm, 'fields': ['density', 'temp'] if 'c05' in __name__ else families.FIELD_SETS[1 + j], 'layout': families.scatter_layouts(mm, rnd, 2), 'geom': j,
                     'ref_extra': j, 'level_prefix': ['Lev_', 'amr_'][j]})
+    # domains around the origin with cell sizes that are not binary fractions: a box face at 0.0 (families.zero_face_geom)
+    for mm in [x for x in meshes if x.name in ('3d-2box-x', '2d-2lev', '3d-2lev-mixed', '2d-3box')] + ([] if tier == 'quick' else meshes):
+        out.append({'label': '%s/zero-face' % mm.name, 'mesh': mm, 'fields': fsets[1], 'layout': families.scatter_layouts(mm, rnd, 2), 'geom': 'zero-face'})
     for r in range(6 if tier == 'quick' else 120):
         nd = rnd.choice([2, 3])
         m = families.random_mesh(rnd, nd, max_levels=2 if tier == 'quick' else 3, max_boxes=4, max_extent=4)
@@ -307,7 +310,7 @@ def main():
     rep.rule = ('one case = one generated well-formed plotfile structure (incl. scattered / non-monotone layouts); per case the real Taster runs '
                 'for all 16 option combinations x level limits x {nofail, fail}, plus six other spellings of the path (trailing separator, absolute, dotted) for two option sets; distinct = (case, options, limit, mode)')
     rep.assumptions = ['payload is real-valued (NaN/Inf outside for the binary_data option); min/max rows equal the true extrema of the payload',
-                       'geometry constants are dyadic, so the box-coordinate comparison is exact']
+                       'geometry constants are dyadic, so the box-coordinate comparison is exact, except in the zero-face cases (concrete IEEE arithmetic of the real code on a domain around the origin with cell sizes 0.0025 / 0.001875 / 0.03)']
     rep.bounds = {'levels': '1-3', 'boxes_per_level': '1-4', 'fields': '1-4', 'files_per_level': '1-3'}
     common.run_cases(rep, run_case, cases())
     from harness import k_lemmas
